@@ -16,11 +16,14 @@
      env_ok num rho G V    every name bound in G has a value in V, and its bit symbols evaluate
                            under rho to the bits of that value
      env_canon G           every binding carries the bit names its type gives (translate_argument)
-     sub_scalar G e        no subscript in e selects a whole tuple-typed element
+     env_tyok G            no bound type has a one-bit sized / tuple component or an empty tuple
+                           (ty_ok; every shipped sized type has at least 2 bits)
+     wf_res r              the translated value is shaped as its type: a bool is a bare expression, a
+                           sized value a flat list
      stmt_guard, body_guard   decidable side conditions of the statement theorems (evaluated on
-                           every program of the correspondence run): the assigned value is nested as
-                           its type, its definitions can be read simultaneously, assign distinct
-                           symbols and clobber no other name
+                           every program of the correspondence run): the bound type is ty_ok, the
+                           definitions can be read simultaneously (seq_ok), assign distinct symbols
+                           (nodupb) and clobber no other name (fresh_for)
    A result None of the model is "the Python code raises". *)
 From Coq Require Import List Bool NArith ZArith Arith.
 From QV Require Import Bits Bexp BexpTT M_Codec Generated M_Types P_Types M_Texp P_Texp.
@@ -29,16 +32,16 @@ Local Open Scope N_scope.
 
 (* ---------------- expressions: ALL constructors ---------------- *)
 Theorem C01x_trans_exp_sound : forall num rho G V e r v,
-  env_ok num rho G V -> env_canon G -> sub_scalar G e = true ->
+  env_ok num rho G V -> env_canon G -> env_tyok G ->
   trans_exp num G e = Some r -> eval_exp V e = Some v -> den rho r = Some v.
 Proof. exact trans_exp_sound. Qed.
 Print Assumptions C01x_trans_exp_sound.
 
-(* the translated type is the type of the value (part of the above, stated on its own) *)
+(* the translated type is the type of the value, and the value is shaped as its type *)
 Theorem C01x_trans_exp_type : forall num rho G V e r v,
-  env_ok num rho G V -> env_canon G -> sub_scalar G e = true ->
+  env_ok num rho G V -> env_canon G -> env_tyok G ->
   trans_exp num G e = Some r -> eval_exp V e = Some v ->
-  type_of v = fst r /\ length (flat (snd r)) = ty_size (fst r).
+  type_of v = fst r /\ length (flat (snd r)) = ty_size (fst r) /\ wf_res r.
 Proof. exact trans_exp_type. Qed.
 Print Assumptions C01x_trans_exp_type.
 
@@ -53,12 +56,12 @@ Definition exe : pexp :=
             (EName 2%nat).
 
 Example C01x_trans_exp_ex :
-  env_ok exnum exrho exG exV /\ env_canon exG /\ sub_scalar exG exe = true
+  env_ok exnum exrho exG exV /\ env_canon exG /\ env_tyok exG
   /\ (exists r, trans_exp exnum exG exe = Some r /\ fst r = TBool)
   /\ eval_exp exV exe = Some (VB false)          (* ((3 widened to 4 bits) + 1) * 2 = 8 at 8 bits; 8 > 9 is false *)
   /\ option_map (den exrho) (trans_exp exnum exG exe) = Some (Some (VB false)).
 Proof.
-  split; [|split; [apply arg_env_canon|]].
+  split; [|split; [apply arg_env_canon|split; [apply arg_env_tyok; reflexivity|]]].
   - apply (arg_env_ok exnum exrho [(1%nat, TQint 2); (2%nat, TQint 4); (3%nat, TBool)] [VI 2 3; VI 4 9; VB true]).
     repeat constructor.
   - repeat split; try (vm_compute; reflexivity). eexists. split; vm_compute; reflexivity.
@@ -68,7 +71,7 @@ Qed.
    constants, comparisons, + - * & | ^, shifts by an integer constant; every bound name a bool or a
    Qint) HAVE a value, and denote it: soundness without the hypothesis on the evaluator *)
 Theorem C01x_trans_exp_total : forall num rho G V e r,
-  env_ok num rho G V -> env_canon G -> ib_env G -> frag e = true -> trans_exp num G e = Some r ->
+  env_ok num rho G V -> env_canon G -> env_tyok G -> ib_env G -> frag e = true -> trans_exp num G e = Some r ->
   exists v, eval_exp V e = Some v /\ den rho r = Some v.
 Proof. exact trans_exp_total. Qed.
 Print Assumptions C01x_trans_exp_total.
@@ -78,11 +81,18 @@ Proof. split; [apply arg_env_ib|]; reflexivity. Qed.
 
 (* ---------------- statements ---------------- *)
 Theorem C01x_trans_stmt_sound : forall num rho G V rt s ds G' V',
-  env_ok num rho G V -> env_canon G -> stmt_guard num G rt s = true ->
+  env_ok num rho G V -> env_canon G -> env_tyok G -> stmt_guard num G rt s = true ->
   trans_stmt num G rt s = Some (ds, G') -> eval_stmt V rt s = Some V' ->
-  env_ok num (run_defs rho (numbered num ds)) G' V' /\ env_canon G'.
+  env_ok num (run_defs rho (numbered num ds)) G' V' /\ env_canon G' /\ env_tyok G'.
 Proof. exact trans_stmt_sound. Qed.
 Print Assumptions C01x_trans_stmt_sound.
+
+(* the names an Assign / Return binds are the names translate_argument gives to the type: PROVED
+   for every value with a meaning (was a guard before the fixes 87c4060 / fa1d0be) *)
+Theorem C01x_binding_names : forall rho x r v, den rho r = Some v -> wf_res r -> ty_ok (fst r) = true ->
+  map fst (decompose [x] (snd (regroup_value r))) = arg_names [x] (fst r).
+Proof. exact regroup_canon. Qed.
+Print Assumptions C01x_binding_names.
 
 (* the Return coercion to the declared type: zero-extension / low bits for integers *)
 Theorem C01x_ret_coerce_sound : forall rho rt r v r' v',
@@ -92,9 +102,9 @@ Proof. exact ret_coerce_sound. Qed.
 Print Assumptions C01x_ret_coerce_sound.
 
 Theorem C01x_trans_body_sound : forall num body rho G V rt ds G' V',
-  env_ok num rho G V -> env_canon G -> body_guard num G rt body = true ->
+  env_ok num rho G V -> env_canon G -> env_tyok G -> body_guard num G rt body = true ->
   trans_body num G rt body = Some (ds, G') -> eval_body V rt body = Some V' ->
-  env_ok num (run_defs rho (numbered num ds)) G' V' /\ env_canon G'.
+  env_ok num (run_defs rho (numbered num ds)) G' V' /\ env_canon G' /\ env_tyok G'.
 Proof. exact trans_body_sound. Qed.
 Print Assumptions C01x_trans_body_sound.
 
@@ -172,27 +182,43 @@ Theorem C01x_rejects_operators :
 Proof. exact rejects_operators. Qed.
 Print Assumptions C01x_rejects_operators.
 
-(* ---------------- where the full-strength statements are FALSE ---------------- *)
-(* without sub_scalar: `a[0]` of a: Tuple[Tuple[bool, Qint[2]], bool] is ONE fabricated symbol *)
-Theorem C01x_subscript_of_tuple_refuted :
-  exists num rho G V e r v, env_ok num rho G V /\ env_canon G /\
-    trans_exp num G e = Some r /\ eval_exp V e = Some v /\ den rho r <> Some v /\ sub_scalar G e = false.
-Proof. exact subscript_of_tuple_refuted. Qed.
-Print Assumptions C01x_subscript_of_tuple_refuted.
+(* ---------------- the two former counterexamples, now theorems ---------------- *)
+(* a subscript may select ANY element, a whole tuple-typed one included (`a[0]` of
+   a: Tuple[Tuple[bool, Qint[2]], bool]): no side condition on subscripts is left *)
+Theorem C01x_subscript_of_tuple_sound : forall num rho G V x p r v,
+  env_ok num rho G V -> env_canon G -> env_tyok G ->
+  trans_exp num G (ESub x p) = Some r -> eval_exp V (ESub x p) = Some v ->
+  den rho r = Some v /\ type_of v = fst r.
+Proof. exact subscript_of_tuple_sound. Qed.
+Print Assumptions C01x_subscript_of_tuple_sound.
 
-(* without body_guard: `d = a; return d[1]` with a: Tuple[Qint[2], bool] returns bit 1 of a[0] *)
-Theorem C01x_tuple_copy_refuted :
-  exists num rho args rt body vs lf v,
-    trans_fun num args rt body = Some lf /\ eval_fun args rt body vs = Some v /\
-    wf_args args = true /\ wf_body body = true /\ args_encoded num rho args vs /\
-    body_guard num (arg_env args) rt body = false /\
-    decode rt (map (fun s => run_defs rho (numbered num (lf_defs lf)) (num s)) (arg_names [ret_id] rt)) <> Some v.
-Proof. exact tuple_copy_refuted. Qed.
-Print Assumptions C01x_tuple_copy_refuted.
+Example C01x_subscript_of_tuple_ex :
+  env_ok ex_sub_num ex_sub_rho ex_sub_G ex_sub_V /\ env_canon ex_sub_G /\ env_tyok ex_sub_G
+  /\ eval_exp ex_sub_V (ESub 1%nat [0%nat]) = Some (VT [VB true; VI 2 1])
+  /\ option_map (den ex_sub_rho) (trans_exp ex_sub_num ex_sub_G (ESub 1%nat [0%nat])) = Some (Some (VT [VB true; VI 2 1])).
+Proof.
+  destruct ex_sub_env as (A & B & C). repeat split; try assumption; vm_compute; reflexivity.
+Qed.
+
+(* `d = a; return d[1]` with a: Tuple[Qint[2], bool] (returned bit 1 of a[0] before the fix): the
+   copy is named d.0.0, d.0.1, d.1 and the function returns a[1] for EVERY argument value *)
+Theorem C01x_tuple_copy_sound : forall rho vs v,
+  args_encoded ex_copy_num rho ex_copy_args vs -> eval_fun ex_copy_args TBool ex_copy_body vs = Some v ->
+  exists lf, trans_fun ex_copy_num ex_copy_args TBool ex_copy_body = Some lf /\
+    map fst (lf_defs lf) = [[2; 0; 0]; [2; 0; 1]; [2; 1]; [0]]%nat /\
+    decode TBool (map (fun s => run_defs rho (numbered ex_copy_num (lf_defs lf)) (ex_copy_num s))
+                      (arg_names [ret_id] TBool)) = Some v.
+Proof. exact tuple_copy_sound. Qed.
+Print Assumptions C01x_tuple_copy_sound.
+
+Example C01x_tuple_copy_ex :
+  args_encoded ex_copy_num (fun k => Nat.eqb k 1) ex_copy_args [VT [VI 2 2; VB false]]
+  /\ eval_fun ex_copy_args TBool ex_copy_body [VT [VI 2 2; VB false]] = Some (VB false).
+Proof. split; [constructor; [vm_compute; reflexivity|constructor]|vm_compute; reflexivity]. Qed.
 
 (* "every accepted program has a meaning" is false: Qint ^ Qchar; `return 'a'` declared Qint[2] *)
 Theorem C01x_accepted_without_meaning_refuted :
-  (exists num rho G V e r, env_ok num rho G V /\ env_canon G /\ sub_scalar G e = true /\
+  (exists num rho G V e r, env_ok num rho G V /\ env_canon G /\ env_tyok G /\
      trans_exp num G e = Some r /\ eval_exp V e = None)
   /\ (exists num args rt body lf, trans_fun num args rt body = Some lf /\
         forall vs, eval_fun args rt body vs = None).
